@@ -23,20 +23,22 @@
 EXTENDS Naturals, Sequences, FiniteSets
 
 (* ---- sample table (JokerSamples) ---- *)
-SamplesReads == {"orbit", "t0", "pack", "median", "mean", "map", "gapA", "gapB", "coverA", "spanA", "unimodal", "unmarg"}
+SamplesReads == {"orbit", "t0", "phase1", "pack", "packU", "median", "mean", "map", "gapA", "gapB", "coverA", "spanA", "unimodal", "unmarg"}
 SamplesMuts == {"wrapK", "setK", "setLL", "setP"}
 SamplesDerivs == {"copy", "slice2", "mask", "pickle", "roundtrip"}
 (* ---- data set (RVData) ---- *)
-DataReads == {"t", "rv", "ivar", "tref", "phase", "merge", "series", "plot", "plotrel"}
+DataReads == {"t", "rv", "ivar", "tref", "phase", "trend", "merge", "series", "plot", "plotrel"}
 DataMuts == {}
-DataDerivs == {"copy", "slice", "mask", "rebuild"}
+DataDerivs == {"copy", "slice", "mask", "pickle", "rebuild"}
 (* ---- prior (JokerPrior): sample(generate_linear, return_logprobs) with an equally seeded generator ---- *)
-PriorReads == {"s00", "s01", "s10", "s11"}
+\*      "shape": the parameter names / number of offsets the prior declares; "touch": the CALLER appends to the list of offset priors it
+\*      passed at construction - not a call on the object at all, so it must leave the object as it is (class read, no answer)
+PriorReads == {"s00", "s01", "s10", "s11", "shape", "touch"}
 PriorMuts == {}
 PriorDerivs == {}
 (* ---- sampler (TheJoker over one prior and one generator): marginal likelihoods of data set A / B through the in-memory and  *)
 (*      the cache-file path are reads; rejection / iterative sampling draw from the generator                                   *)
-SamplerReads == {"mA", "mAf", "mB"}
+SamplerReads == {"mA", "mAf", "mB", "mBm"}
 SamplerDraws == {"rA", "rAm", "rB", "iA"}
 
 ReadsOf(kind) == CASE kind = "samples" -> SamplesReads [] kind = "data" -> DataReads [] kind = "prior" -> PriorReads [] kind = "sampler" -> SamplerReads
@@ -51,6 +53,7 @@ Owner(kind, r) ==
     [] kind = "samples" /\ r = "unmarg" -> "C04"
     [] kind = "samples" -> "C17"
     [] kind = "data" -> "C15"
+    [] kind = "prior" /\ r \in {"shape", "touch"} -> "C18"
     [] kind = "prior" -> "C09"
     [] kind = "sampler" /\ r \in SamplerReads -> "C05"
     [] kind = "sampler" -> "C10"
